@@ -37,7 +37,7 @@ type c13Key struct {
 	Value   int64  `json:"value"`
 }
 type c13In struct {
-	Kind  string   `json:"kind"` // ax | seq | sort | hist | top
+	Kind  string   `json:"kind"` // ax | seq | sort | hist | top | table
 	Mode  string   `json:"mode"` // raw --sort argument (hex, may be any bytes)
 	Keys  []c13Key `json:"keys"`
 	Pairs [][2]int `json:"pairs,omitempty"`
@@ -45,6 +45,11 @@ type c13In struct {
 	Via   string   `json:"via,omitempty"` // Sort | SortBy | counter | subkey | table-rows | table-cols | groups
 	Hist  []c13Ev  `json:"history,omitempty"` // kind hist: samples interleaved with reads (rendered frames)
 	Big   *c13Big  `json:"big,omitempty"`     // kind top
+	// kind table
+	NRows   int      `json:"n_rows,omitempty"`
+	ColMode string   `json:"col_mode,omitempty"` // hex: the column sorter (spark --sort-cols) the keep-trims use
+	ByRows  bool     `json:"by_rows,omitempty"`  // observe OrderedRows (else OrderedColumns) with Mode
+	THist   []c13TEv `json:"table_history,omitempty"`
 }
 // kind top: a large key set (names and values computed from a counter, as coq/Model/Sort.v
 // big_items does) handed to an accessor with a row limit, from several arrival orders
@@ -57,6 +62,17 @@ type c13Big struct {
 	Limit    int    `json:"limit"`
 	Reps     int    `json:"arrival_orders"`
 	PermSeed uint64 `json:"perm_seed"`
+}
+// kind table: Keys = row keys followed by column keys (NRows of them are rows)
+type c13TEv struct {
+	Op   string `json:"op"` // sample | read | keep | val | cols
+	Col  int    `json:"col,omitempty"`
+	Row  int    `json:"row,omitempty"`
+	Inc  int64  `json:"inc,omitempty"`
+	N    int    `json:"n,omitempty"`    // keep: number of columns kept (spark --cols)
+	Lo   int64  `json:"lo,omitempty"`   // val: trim cells with lo <= value <= hi
+	Hi   int64  `json:"hi,omitempty"`
+	Cols []int  `json:"cols,omitempty"` // cols: trim these columns
 }
 type c13Ev struct {
 	Key  int   `json:"key"`
@@ -524,6 +540,148 @@ func classOf(x keyInfo, name string) string {
 	return "text"
 }
 
+// a TableAggregator over a history of samples, reads (frames) and trims; the final view as key indices
+func c13TableRun(in c13In) (out c13Out, present []int) {
+	defer func() {
+		if e := recover(); e != nil {
+			out = c13Out{Panic: fmt.Sprint(e)}
+		}
+	}()
+	mode := modeStr(in)
+	cmb, _ := hex.DecodeString(in.ColMode)
+	colMode := string(cmb)
+	viewSorter, err := helpers.BuildSorter(mode)
+	if err != nil {
+		return c13Out{Err: true}, nil
+	}
+	colSorter, err := helpers.BuildSorter(colMode) // one instance for the whole run, as cmd/spark.go keeps it
+	if err != nil {
+		return c13Out{Err: true}, nil
+	}
+	rowSorter, _ := helpers.BuildSorter(mode)
+	rows := in.Keys[:in.NRows]
+	cols := in.Keys[in.NRows:]
+	rname := func(i int) string { return rows[i].name() }
+	cname := func(i int) string { return cols[i].name() }
+	ridx, cidx := map[string]int{}, map[string]int{}
+	for i := range rows {
+		ridx[rname(i)] = i
+	}
+	for i := range cols {
+		cidx[cname(i)] = i
+	}
+	t := aggregation.NewTable(" ")
+	for _, e := range in.THist {
+		switch e.Op {
+		case "sample":
+			t.SampleItem(cname(e.Col), rname(e.Row), e.Inc)
+		case "read":
+			t.OrderedRows(rowSorter)
+			t.OrderedColumns(colSorter)
+		case "keep": // cmd/spark.go
+			if keepCols := t.OrderedColumns(colSorter); len(keepCols) > e.N {
+				keepCols = keepCols[len(keepCols)-e.N:]
+				keepLookup := make(map[string]struct{})
+				for _, item := range keepCols {
+					keepLookup[item] = struct{}{}
+				}
+				t.Trim(func(col, row string, val int64) bool {
+					_, ok := keepLookup[col]
+					return !ok
+				})
+			}
+		case "val":
+			lo, hi := e.Lo, e.Hi
+			t.Trim(func(col, row string, val int64) bool { return lo <= val && val <= hi })
+		case "cols":
+			drop := map[string]bool{}
+			for _, c := range e.Cols {
+				drop[cname(c)] = true
+			}
+			t.Trim(func(col, row string, val int64) bool { return drop[col] })
+		}
+	}
+	res := []int{}
+	if in.ByRows {
+		for _, r := range t.OrderedRows(viewSorter) {
+			res = append(res, ridx[r.Name()])
+		}
+	} else {
+		for _, c := range t.OrderedColumns(viewSorter) {
+			res = append(res, cidx[c])
+		}
+	}
+	present = append([]int{}, res...)
+	sort.Ints(present)
+	out.Outs = [][]int{res}
+	return
+}
+
+func c13TableCase(in c13In) Case {
+	out, present := c13TableRun(in)
+	terms, infos, layouts, instants, _ := c13Oracles(in.Keys)
+	mode := modeStr(in)
+	cmb, _ := hex.DecodeString(in.ColMode)
+	es := make([]string, len(in.THist))
+	ntrim := 0
+	for i, e := range in.THist {
+		switch e.Op {
+		case "sample":
+			es[i] = fmt.Sprintf("tS %d %d %s", e.Col, e.Row, Z(e.Inc))
+		case "read":
+			es[i] = "tR"
+		case "keep":
+			es[i] = fmt.Sprintf("tK %d", e.N)
+			ntrim++
+		case "val":
+			es[i] = fmt.Sprintf("tV %s %s", Z(e.Lo), Z(e.Hi))
+			ntrim++
+		default:
+			es[i] = "tC " + coqInts(e.Cols)
+			ntrim++
+		}
+	}
+	cin := fmt.Sprintf("iTab %s %s %s %s %s %s", HS(mode), HS(string(cmb)), B(in.ByRows),
+		CoqList(terms[:in.NRows]), CoqList(terms[in.NRows:]), CoqList(es))
+	var cout string
+	switch {
+	case out.Panic != "":
+		cout = "oPanic"
+	case out.Err:
+		cout = "oErr"
+	default:
+		cout = fmt.Sprintf("oTab %s %s", coqInts(present), coqInts(out.Outs[0]))
+	}
+	lname := strings.ToLower(mode)
+	if i := strings.Index(lname, ":"); i >= 0 {
+		lname = lname[:i]
+	}
+	if lname == "" {
+		lname = "text"
+	}
+	if lname == "context" {
+		lname = "contextual"
+	}
+	view := "via=table-cols+trim"
+	viewInfos, vl, vi := infos[in.NRows:], layouts, instants[in.NRows:]
+	if in.ByRows {
+		view = "via=table-rows+trim"
+		viewInfos, vi = infos[:in.NRows], instants[:in.NRows]
+	}
+	tags := []string{"kind=table", view, fmt.Sprintf("trims=%d", min(ntrim, 4))}
+	if out.Err {
+		tags = append(tags, "spec=rejected")
+	} else {
+		tags = append(tags, "mode="+lname)
+		if lname == "date" && dateDomain(viewInfos, vl, vi) == "mixed" {
+			tags = append(tags, kfDate)
+		}
+	}
+	kb, _ := json.Marshal(in)
+	return Case{Coq: "(" + cin + ", " + cout + ")", Desc: map[string]any{"input": in, "impl": out, "impl_present": present}, Key: string(kb),
+		Nontrivial: ntrim > 0, Tags: tags}
+}
+
 func bigName(style, i int) string {
 	if style == 0 {
 		return "k" + strconv.Itoa(i)
@@ -653,6 +811,9 @@ func c13TopCase(in c13In) Case {
 func c13Case(in c13In) Case {
 	if in.Kind == "top" {
 		return c13TopCase(in)
+	}
+	if in.Kind == "table" {
+		return c13TableCase(in)
 	}
 	out := c13Run(in)
 	terms, infos, layouts, instants, _ := c13Oracles(in.Keys)
@@ -1230,7 +1391,25 @@ func c13Gen(r *Rng, n int, tier string) []Case {
 					in.Pairs = append(in.Pairs, in.Pairs[r.Intn(len(in.Pairs))])
 				}
 			}
-		case x < 12:
+		case x < 10:
+			in.Kind = "table"
+			// row and column sorts the table commands offer: mostly value, also text / numeric (and the rest)
+			viewName := Pick(r, []string{"value", "value", "value", "text", "numeric", rc.spec})
+			if viewName == "*" {
+				viewName = "value"
+			}
+			in.Mode = hex.EncodeToString([]byte(genSpecFor(r, viewName)))
+			in.ColMode = hex.EncodeToString([]byte(genSpecFor(r, Pick(r, []string{"value", "value", "text", "numeric", "contextual"}))))
+			in.ByRows = r.Bool()
+			rowNames := genNames(r, Pick(r, []string{"puretext", "numbers-distinct", rc.keys}), r.Range(2, 6))
+			colNames := genNames(r, Pick(r, []string{"puretext", "numbers-distinct", "weekdays", "months"}), r.Range(2, 6))
+			if len(rowNames) < 2 || len(colNames) < 2 {
+				continue
+			}
+			in.NRows = len(rowNames)
+			in.Keys = append(mkKeys(r, rowNames), mkKeys(r, colNames)...)
+			in.THist = genTableHistory(r, len(colNames), len(rowNames))
+		case x < 13:
 			in.Kind = "hist"
 			in.Via = Pick(r, []string{"counter", "subkey", "table-rows", "table-cols", "groups", "groups"})
 			recipeKeys := rc.keys
@@ -1269,7 +1448,7 @@ func c13Gen(r *Rng, n int, tier string) []Case {
 			}
 		}
 		cs := c13Case(in)
-		if in.Kind == "hist" && hasKF(cs.Tags) {
+		if (in.Kind == "hist" || in.Kind == "table") && hasKF(cs.Tags) {
 			continue // collectors iterate Go maps: inside the recorded finding's domain the run would not be reproducible
 		}
 		if in.Kind == "sort" && in.Via != "Sort" && in.Via != "SortBy" && hasKF(cs.Tags) {
@@ -1382,6 +1561,52 @@ func genBigCases(r *Rng, tier string) []Case {
 	return cases
 }
 
+// a table history: cells sampled with small increments, frames read, and trims as the commands do
+// them (spark keeps the last n columns every frame; value and column-set predicates), with more
+// samples after a trim so that trimmed rows and columns can come back
+func genTableHistory(r *Rng, ncols, nrows int) []c13TEv {
+	var h []c13TEv
+	n := r.Range(6, 36)
+	keep := r.Range(1, ncols)
+	style := r.Intn(4) // 0: spark (keep every frame), 1: value trims, 2: column sets, 3: mixture
+	for i := 0; i < n; i++ {
+		inc := int64(r.Range(-3, 12))
+		if r.Chance(1, 8) {
+			inc = int64(r.Range(12, 200))
+		}
+		h = append(h, c13TEv{Op: "sample", Col: r.Intn(ncols), Row: r.Intn(nrows), Inc: inc})
+		if !r.Chance(1, 3) {
+			continue
+		}
+		k := style
+		if k == 3 {
+			k = r.Intn(3)
+		}
+		switch k {
+		case 0:
+			h = append(h, c13TEv{Op: "keep", N: keep}, c13TEv{Op: "read"})
+		case 1:
+			lo := int64(r.Range(-3, 6))
+			h = append(h, c13TEv{Op: "read"}, c13TEv{Op: "val", Lo: lo, Hi: lo + int64(r.Range(0, 8))})
+		default:
+			var cs []int
+			for c := 0; c < ncols; c++ {
+				if r.Chance(1, 3) {
+					cs = append(cs, c)
+				}
+			}
+			if cs == nil {
+				cs = []int{}
+			}
+			h = append(h, c13TEv{Op: "cols", Cols: cs}, c13TEv{Op: "read"})
+		}
+	}
+	if r.Chance(1, 2) { // a trim right before the final view
+		h = append(h, c13TEv{Op: "keep", N: keep})
+	}
+	return h
+}
+
 func hasKF(tags []string) bool {
 	for _, t := range tags {
 		if strings.HasPrefix(t, "kf:") {
@@ -1419,6 +1644,12 @@ func fixedCases() []c13In {
 		mk("sort", "text:desc", "table-rows", "a", "b", "c", "d"),                 //
 		mk("ax", "contextual", "", "Jan", "FEB", "march", "Apr", "may", "JUNE", "jul", "aug", "sept", "oct", "nov", "dec"),
 		mk("ax", "contextual", "", "sat", "fri", "thu", "wed", "tue", "mon", "sun"),
+		mkTable("value", "text", true, []string{"a", "b", "c"}, []string{"x", "y"},
+			[]c13TEv{{Op: "sample", Col: 0, Row: 0, Inc: 20}, {Op: "sample", Col: 1, Row: 0, Inc: 3}, {Op: "sample", Col: 1, Row: 1, Inc: 10},
+				{Op: "sample", Col: 1, Row: 2, Inc: 5}, {Op: "read"}, {Op: "cols", Cols: []int{0}}, {Op: "read"}}),
+		mkTable("value", "value", false, []string{"a", "b"}, []string{"x", "y", "z"},
+			[]c13TEv{{Op: "sample", Col: 0, Row: 0, Inc: 9}, {Op: "sample", Col: 0, Row: 1, Inc: 1}, {Op: "sample", Col: 1, Row: 1, Inc: 5},
+				{Op: "sample", Col: 2, Row: 0, Inc: 2}, {Op: "val", Lo: 5, Hi: 100}, {Op: "sample", Col: 2, Row: 1, Inc: 1}, {Op: "keep", N: 2}}),
 		mkHist("numeric", "groups", []string{"a", "b", "c"}, [][2]int64{{0, 5}, {1, 3}, {2, 1}, {-1, 0}, {2, 9}, {1, 4}}),
 		mkHist("numeric:desc", "groups", []string{"a", "b", "c"}, [][2]int64{{0, 5}, {-1, 0}, {1, 3}, {-1, 0}, {2, 1}, {-1, 0}, {2, 9}, {-1, 0}, {1, 4}}),
 		mkHist("value", "counter", []string{"a", "b", "c"}, [][2]int64{{0, 5}, {1, 3}, {2, 1}, {-1, 0}, {2, 9}, {1, 4}}),
@@ -1426,6 +1657,18 @@ func fixedCases() []c13In {
 		mkHist("value", "table-cols", []string{"a", "b", "c"}, [][2]int64{{0, 5}, {1, 3}, {2, 1}, {-1, 0}, {2, 9}, {1, 4}}),
 		mkHist("value", "subkey", []string{"a", "b", "c"}, [][2]int64{{0, 5}, {1, 3}, {2, 1}, {-1, 0}, {2, 9}, {1, 4}}),
 	}
+}
+
+func mkTable(mode, colMode string, byRows bool, rows, cols []string, h []c13TEv) c13In {
+	var ks []c13Key
+	for _, n := range rows {
+		ks = append(ks, mkKey(n, 0))
+	}
+	for _, n := range cols {
+		ks = append(ks, mkKey(n, 0))
+	}
+	return c13In{Kind: "table", Mode: hex.EncodeToString([]byte(mode)), ColMode: hex.EncodeToString([]byte(colMode)),
+		ByRows: byRows, NRows: len(rows), Keys: ks, THist: h}
 }
 
 // history given as (key index, increment) pairs; key index -1 is an intermediate read
@@ -1453,6 +1696,7 @@ func main() {
 			"key recipes: numbers in several spellings (1, 1.0, 01, 1e0, -0, hex float, subnormal, > 2^53, out of range), nan/inf, text, number-like text (5x, 1,5), weekday/month names and abbreviations in random case, near-misses (sund, FR\\u0130), dates in 15 layouts incl. years 0001..9999 (instants outside the int64-nanosecond range), mixtures; values: distinct / many ties / all equal / int64 extremes. " +
 			"kinds: ax = every ordered pair on a fresh BuildSorter instance (decision matrix, compared off the diagonal; axioms on all triples in Coq); seq = 3..40 comparisons of distinct keys incl. swapped and repeated pairs on one instance; " +
 			"hist = a collector (MatchCounter.ItemsSortedBy, SubKeyCounter.ItemsSorted, TableAggregator.OrderedRows/OrderedColumns, AccumulatingGroup.Groups with SetSort({sum}) as in rare reduce) fed 5..30 samples interleaved with reads of the sorted view (rendered frames) on one sorter instance; the final read is compared with the model's function of the final totals alone; " +
+			"table = a TableAggregator with 2..6 rows and columns fed 6..36 cell samples interleaved with frames (OrderedRows + OrderedColumns on persistent sorters) and Trim calls as the commands make them (spark: keep the last n columns in the column sorter's order, every frame; value predicates lo <= val <= hi; column sets), more samples after trims; the final OrderedRows or OrderedColumns (mostly value, also text / numeric / the rest, any modifier) and the set of rows / columns left are compared with the model's function of the final cells alone; " +
 			"top = 9 cases per run with 2,050..6,000 keys built from a counter (text k<i> or numbers 37*i mod 10007) and values (i*a+b) mod m (many ties), 2-3 arrival orders each: MatchCounter.ItemsSortedBy with limits 1, 2, 5, 50, groups/4-1, groups/4, groups, and SubKeyCounter.ItemsSorted / TableAggregator.OrderedRows at full length, any sort mode and modifier; the model answers firstn limit of its full (merge) sort and the boolean form checks the rows in a linear pass; " +
 			"sort = sorting.Sort / SortBy / MatchCounter.ItemsSortedBy / TableAggregator.OrderedRows / OrderedColumns on every arrangement (<= 5 keys, sometimes 6) or 50 random arrangements (6..12 keys), fresh sorter each. " +
 			"distinct = distinct (kind, specification, keys with values, pairs/arrangements, path); non-trivial = at least 3 keys. --sort date cases whose key set is neither inside one layout nor without any layout lie in the domain of the recorded finding C13-stateful-date: they carry its kf: tag (decided from specification and keys alone) and go through Sort/SortBy only (the collectors' map order would make the run irreproducible there). Distribution tags numbers+text, equal-values, calendar-mixture, calendar-tie, equal-instants mark the key sets the repaired comparators are about.",
